@@ -187,7 +187,7 @@ def failed_write_cases(rng, count):
         pos = rng.below(5); kind = rng.choice(["e", "e", "e", "1", "7"])
         fault = "@@fault %d:%s" % (pos, kind) if rng.below(4) else "@@fault %d:%s,%d:e" % (pos, rng.choice(["1", "7"]), pos + 1)
         lines = ["1a", "edit", ".", fault, rng.choice(["w", "w", "w!", "wq", "x", "w other", "xa"]), rng.choice(["q", "q", "e other", "b", "x"]), "b", "w", "q", "q!"]
-        out.append(case([("fa", data), ("other", None)], ["fa"] if rng.below(4) else [], lines))
+        out.append(case([("fa", data), ("other", None)], ["fa"], lines))     # (a buffer without a name cannot be written with a bare :w)
     return out
 
 def buf_cases(rng, count, nfiles=3, maxcmds=14):
